@@ -19,6 +19,9 @@ impl Flags {
     pub fn remove(&mut self, o: Flags)
         ensures final(self).started == (old(self).started && !o.started), final(self).finished == (old(self).finished && !o.finished), final(self).keep_alive == (old(self).keep_alive && !o.keep_alive), final(self).shutdown == (old(self).shutdown && !o.shutdown), final(self).read_disconnect == (old(self).read_disconnect && !o.read_disconnect), final(self).write_disconnect == (old(self).write_disconnect && !o.write_disconnect), final(self).linger == (old(self).linger && !o.linger), final(self).draining == (old(self).draining && !o.draining)
     { self.started = self.started && !o.started; self.finished = self.finished && !o.finished; self.keep_alive = self.keep_alive && !o.keep_alive; self.shutdown = self.shutdown && !o.shutdown; self.read_disconnect = self.read_disconnect && !o.read_disconnect; self.write_disconnect = self.write_disconnect && !o.write_disconnect; self.linger = self.linger && !o.linger; self.draining = self.draining && !o.draining; }
+    pub fn set(&mut self, o: Flags, v: bool)
+        ensures *final(self) == (if v { Flags { started: old(self).started || o.started, finished: old(self).finished || o.finished, keep_alive: old(self).keep_alive || o.keep_alive, shutdown: old(self).shutdown || o.shutdown, read_disconnect: old(self).read_disconnect || o.read_disconnect, write_disconnect: old(self).write_disconnect || o.write_disconnect, linger: old(self).linger || o.linger, draining: old(self).draining || o.draining } } else { Flags { started: old(self).started && !o.started, finished: old(self).finished && !o.finished, keep_alive: old(self).keep_alive && !o.keep_alive, shutdown: old(self).shutdown && !o.shutdown, read_disconnect: old(self).read_disconnect && !o.read_disconnect, write_disconnect: old(self).write_disconnect && !o.write_disconnect, linger: old(self).linger && !o.linger, draining: old(self).draining && !o.draining } })
+    { if v { self.insert(o); } else { self.remove(o); } }
     pub fn intersects(&self, o: Flags) -> (r: bool)
         ensures r == ((o.started && self.started) || (o.finished && self.finished) || (o.keep_alive && self.keep_alive) || (o.shutdown && self.shutdown) || (o.read_disconnect && self.read_disconnect) || (o.write_disconnect && self.write_disconnect) || (o.linger && self.linger) || (o.draining && self.draining))
     { (o.started && self.started) || (o.finished && self.finished) || (o.keep_alive && self.keep_alive) || (o.shutdown && self.shutdown) || (o.read_disconnect && self.read_disconnect) || (o.write_disconnect && self.write_disconnect) || (o.linger && self.linger) || (o.draining && self.draining) }
